@@ -5,7 +5,9 @@
    client does to another client (suspend it, write to it, remove it) happens between the collection
    and the delivery of the other client's notification.
 
-   Reference object: two per-client reference objects (ServerWriteSpec.sst) + the notifications
+   Reference object: one per-client reference object (ServerWriteSpec.sst) for each of ANY NUMBER of
+   clients (a list indexed by the client number; a client beyond the list is in its initial state) +
+   the notifications
    collected in the current round and not yet delivered [pend] + the order in which onClosed is owed
    [s_clq].  A pending notification is REVOKED as far as the client stops wanting it (suspend revokes
    the read part, a drained/discarded queue the write part; a connection given up or removed loses
@@ -13,26 +15,29 @@
    pending notification (the readiness is reported again by the next round: level-triggered).
 
    This file also fixes the vocabulary shared with the model (ServerWrite2Model.v): the operations of
-   the two-client machine, its observation record, and the bookkeeping of pending notifications. *)
+   the n-client machine (the files keep their historical "2" names), its observation record, and the
+   bookkeeping of pending notifications.  No proofs in this file. *)
 From Coq Require Import ZArith List Bool.
 From ServerWrite Require Import ServerWriteSpec.
 Import ListNotations.
 Local Open Scope Z_scope.
 Local Open Scope bool_scope.
 
-(* a collected notification: client (false = A, true = B), read part, write part *)
-Record entry := mkentry { e_c : bool; e_r : bool; e_w : bool }.
+(* clients are numbered: 0 = A, 1 = B, 2 = C, ... *)
+Notation cid := nat (only parsing).
+
+(* a collected notification: client, read part, write part *)
+Record entry := mkentry { e_c : cid; e_r : bool; e_w : bool }.
 
 Inductive op2 :=
-| On (c : bool) (x : op)                       (* an operation of the one-client vocabulary on client c *)
-| Collect (first : bool) (n0 n1 : option native)
-                                               (* the kernel reports readiness n0 for A and n1 for B (None: not ready)
-                                                  in ONE poll round, [first]'s report first; asked only when nothing is pending *)
+| On (c : cid) (x : op)                        (* an operation of the one-client vocabulary on client c *)
+| Collect (evs : list (cid * native))          (* ONE poll round in which the kernel reports these clients, in this
+                                                  order, with this readiness; asked only when nothing is pending *)
 | Deliver (o : outcome)                        (* the next pending notification is dispatched; o answers the send it may issue *)
 | Sweep.                                       (* onClosed for the client that has been owed it longest *)
 
 Record out2 := mkout2 {
-  o2_c : option bool;       (* the client the observation belongs to *)
+  o2_c : option cid;        (* the client the observation belongs to *)
   o2_out : out;
   o2_idle : bool            (* nothing was pending / owed, or the notification had lost all its parts *)
 }.
@@ -41,54 +46,60 @@ Definition out2_none : out2 := mkout2 None out_none false.
 
 (* the interest of client c changes from (or, ow) to (nr, nw): parts no longer wanted are revoked;
    a notification left without parts disappears *)
-Definition revoke (c : bool) (or ow nr nw : bool) (l : list entry) : list entry :=
+Definition revoke (c : cid) (or ow nr nw : bool) (l : list entry) : list entry :=
   if eqb or nr && eqb ow nw then l
   else flat_map (fun e =>
-         if eqb (e_c e) c then
+         if Nat.eqb (e_c e) c then
            let r := e_r e && negb (or && negb nr) in
            let w := e_w e && negb (ow && negb nw) in
            if r || w then [mkentry c r w] else []
          else [e]) l.
 
-Definition forget (c : bool) (l : list entry) : list entry := filter (fun e => negb (eqb (e_c e) c)) l.
+Definition forget (c : cid) (l : list entry) : list entry := filter (fun e => negb (Nat.eqb (e_c e) c)) l.
 
 (* the queue of clients owed an onClosed: a set kept in order of entry *)
-Definition clq_update (c : bool) (was now : bool) (l : list bool) : list bool :=
+Definition clq_update (c : cid) (was now : bool) (l : list cid) : list cid :=
   if now then (if was then l else l ++ [c])
-  else (if was then filter (fun d => negb (eqb d c)) l else l).
+  else (if was then filter (fun d => negb (Nat.eqb d c)) l else l).
 
-Definition events_in_order (first : bool) (n0 n1 : option native) : list (bool * native) :=
-  let a := match n0 with Some n => [(false, n)] | None => [] end in
-  let b := match n1 with Some n => [(true, n)] | None => [] end in
-  if first then b ++ a else a ++ b.
+(* a total map from client numbers, kept as a list with a default for the clients beyond it *)
+Definition getc {A} (d : A) (l : list A) (c : cid) : A := nth c l d.
+
+Fixpoint setc {A} (d : A) (l : list A) (c : cid) (x : A) : list A :=
+  match c, l with
+  | O, [] => [x]
+  | O, _ :: t => x :: t
+  | S c', [] => d :: setc d [] c' x
+  | S c', h :: t => h :: setc d t c' x
+  end.
 
 (* ---------------------------------------------------------------------------------------- *)
 
-Record sst2 := mksst2 { t0 : sst; t1 : sst; pend : list entry; s_clq : list bool }.
+Record sst2 := mksst2 { ts : list sst; pend : list entry; s_clq : list cid }.
 
-Definition spec_init2 : sst2 := mksst2 spec_init spec_init [] [].
+(* every client starts as spec_init *)
+Definition spec_init2 : sst2 := mksst2 [] [] [].
 
-Definition sget (t : sst2) (c : bool) : sst := if c then t1 t else t0 t.
+Definition sget (u : sst2) (c : cid) : sst := getc spec_init (ts u) c.
 
 (* the server still serves the connection *)
 Definition served (t : sst) : bool := negb (s_dead t) && negb (s_gone t).
 Definition want_r (t : sst) : bool := negb (s_susp t).
 Definition want_w (t : sst) : bool := negb (is_nil (q t)).
 
-Definition spec_resel (c : bool) (t t' : sst) (l : list entry) : list entry :=
+Definition spec_resel (c : cid) (t t' : sst) (l : list entry) : list entry :=
   if served t' then (if served t then revoke c (want_r t) (want_w t) (want_r t') (want_w t') l else l)
   else (if served t then forget c l else l).
 
 (* client c went from t to t' *)
-Definition sput (u : sst2) (c : bool) (t t' : sst) (l : list entry) : sst2 :=
-  let l' := spec_resel c t t' l in
-  let k' := clq_update c (s_closing t) (s_closing t') (s_clq u) in
-  if c then mksst2 (t0 u) t' l' k' else mksst2 t' (t1 u) l' k'.
+Definition sput (u : sst2) (c : cid) (t t' : sst) (l : list entry) : sst2 :=
+  mksst2 (setc spec_init (ts u) c t') (spec_resel c t t' l)
+         (clq_update c (s_closing t) (s_closing t') (s_clq u)).
 
 (* the notification a readiness report n gives rise to, for a client that wants (wr, ww):
    the kernel reports input only when reading is wanted, output only when writing is wanted, a half
    hang-up only when anything is wanted, hang-up and error conditions always *)
-Definition spec_entry (t : sst) (c : bool) (n : native) : list entry :=
+Definition spec_entry (t : sst) (c : cid) (n : native) : list entry :=
   if negb (served t) then []
   else
     let wr := want_r t in
@@ -102,10 +113,10 @@ Definition spec_entry (t : sst) (c : bool) (n : native) : list entry :=
       let dw := (o || negb dr && (nhup n || d)) && ww in
       [mkentry c dr dw].
 
-Definition any_void (u : sst2) : bool := s_void (t0 u) || s_void (t1 u).
+Definition any_void (u : sst2) : bool := existsb s_void (ts u).
 
-Definition spec_collect (u : sst2) (evs : list (bool * native)) : sst2 :=
-  mksst2 (t0 u) (t1 u) (flat_map (fun cn => spec_entry (sget u (fst cn)) (fst cn) (snd cn)) evs) (s_clq u).
+Definition spec_collect (u : sst2) (evs : list (cid * native)) : sst2 :=
+  mksst2 (ts u) (flat_map (fun cn => spec_entry (sget u (fst cn)) (fst cn) (snd cn)) evs) (s_clq u).
 
 Definition spec_deliver2 (u : sst2) (o : outcome) : sst2 * option out2 :=
   match pend u with
@@ -118,7 +129,7 @@ Definition spec_deliver2 (u : sst2) (o : outcome) : sst2 * option out2 :=
   end.
 
 (* None = no claim.  Once the application has gone on using a connection that was given up
-   (ServerWriteSpec: s_void) the reference object makes no further claims about either client. *)
+   (ServerWriteSpec: s_void) the reference object makes no further claims about any client. *)
 Definition spec_step2 (u : sst2) (x : op2) : sst2 * option out2 :=
   if any_void u then (u, None)
   else
@@ -138,9 +149,9 @@ Definition spec_step2 (u : sst2) (x : op2) : sst2 * option out2 :=
           let '(t', r) := spec_step t y in
           (sput u c t t' (pend u), option_map (fun r => mkout2 (Some c) r false) r)
       end
-  | Collect first n0 n1 =>
+  | Collect evs =>
       match pend u with
-      | [] => (spec_collect u (events_in_order first n0 n1), Some out2_none)
+      | [] => (spec_collect u evs, Some out2_none)
       | _ => (u, Some out2_none)
       end
   | Deliver o => spec_deliver2 u o
